@@ -401,8 +401,86 @@ def run_ccm_declared(env, sh):
             phase = 'TD'
 
 
+# ---- hash / XOF / MAC objects: update after the first output is forbidden where the documentation says so
+
+def _mk_hash(kind, key):
+    import importlib
+    H = lambda n: importlib.import_module('Crypto.Hash.' + n)
+    if kind in ('SHAKE128', 'SHAKE256', 'TurboSHAKE128'):
+        return (lambda: H(kind).new()), 'xof', True
+    if kind == 'cSHAKE128':
+        return (lambda: H(kind).new(custom=b"ab")), 'xof', True
+    if kind in ('SHA3_256', 'keccak'):
+        return (lambda: H(kind).new(digest_bits=256) if kind == 'keccak' else H(kind).new()), 'hash', True
+    if kind in ('BLAKE2b', 'BLAKE2s'):
+        return (lambda: H(kind).new(digest_bytes=16)), 'hash', True
+    if kind == 'KMAC128':
+        return (lambda: H(kind).new(key=key, mac_len=16)), 'mac', True
+    if kind == 'TupleHash128':
+        return (lambda: H(kind).new(digest_bytes=16)), 'hash', True
+    if kind == 'CMAC':
+        from Crypto.Cipher import AES
+        return (lambda: H('CMAC').new(key, ciphermod=AES)), 'mac', True
+    if kind == 'Poly1305':
+        from Crypto.Cipher import AES
+        return (lambda: H('Poly1305').new(key=key + key, cipher=AES, nonce=bytes(16))), 'mac', True
+    if kind == 'HMAC':
+        return (lambda: H('HMAC').new(key, digestmod=H('SHA256'))), 'mac', False
+    if kind in ('SHA256', 'SHA1', 'SHA512', 'MD5'):
+        return (lambda: H(kind).new()), 'hash', False
+    raise KeyError(kind)
+
+
+def run_hash_seq(env, sh):
+    P = env.P
+    kind, seq = sh['kind'], sh['seq']
+    key = env.bytes('key', 16)
+    mk, family, frozen_after_output = _mk_hash(kind, key)
+    h = mk()
+    fed = []
+    produced = False
+    nread = 0
+    for i, act in enumerate(seq):
+        n = (3, 17, 0, 16)[i % 4]
+        data = env.bytes('d%d' % i, n)
+        try:
+            if act == 'update':
+                r = h.update(data)
+            elif family == 'xof':
+                r = h.read(n + 1)
+            else:
+                r = h.digest()
+            raised = None
+        except TypeError:
+            raised = 'TypeError'
+        except Exception as e:
+            raised = type(e).__name__
+        if act == 'update':
+            if produced and frozen_after_output:
+                env.check(raised == 'TypeError', 'step %d: update() after the first output raises TypeError' % i)
+                continue
+            env.check(raised is None, 'step %d: update() is permitted' % i)
+            fed.append(data)
+            continue
+        env.check(raised is None, 'step %d: output is permitted' % i)
+        produced = True
+        ref = mk()
+        if fed and kind.startswith('TupleHash'):
+            for item in fed:            # a tuple hash is over the sequence of items, not their concatenation
+                ref.update(item)
+        elif fed:
+            ref.update(P.concat(*fed))
+        if family == 'xof':
+            whole = ref.read(nread + n + 1)
+            env.check(r == whole[nread:], 'step %d: read() continues the one-shot output at its position' % i)
+            nread += n + 1
+        else:
+            env.check(r == ref.digest(), 'step %d: digest() == one-shot digest of the data accepted so far (idempotent; a refused update left no trace)' % i)
+
+
 HARNESSES = dict(aead_seq=Harness('aead_seq', run_aead_seq), classic_seq=Harness('classic_seq', run_classic_seq),
-                 ocb_seq=Harness('ocb_seq', run_ocb_seq), ccm_declared=Harness('ccm_declared', run_ccm_declared))
+                 ocb_seq=Harness('ocb_seq', run_ocb_seq), ccm_declared=Harness('ccm_declared', run_ccm_declared),
+                 hash_seq=Harness('hash_seq', run_hash_seq))
 
 
 def shapes(tier):
@@ -458,6 +536,12 @@ def shapes(tier):
                 if seq[0][0] in ('digest', 'verify'):
                     continue
                 jobs.append(('ccm_declared', dict(assoc_len=A, msg_len=Ml, seq=[list(x) for x in seq])))
+    # hash / XOF / MAC objects
+    for kind in ('SHAKE128', 'SHAKE256', 'cSHAKE128', 'TurboSHAKE128', 'SHA3_256', 'keccak', 'BLAKE2b', 'BLAKE2s', 'KMAC128', 'TupleHash128', 'CMAC', 'Poly1305', 'HMAC', 'SHA256',
+                 'SHA1', 'SHA512', 'MD5'):
+        for d in range(1, (5 if th else 4) + 1):
+            for seq in itertools.product(('update', 'out'), repeat=d):
+                jobs.append(('hash_seq', dict(kind=kind, seq=list(seq))))
     for mode in ('cbc', 'cfb', 'ofb', 'ctr', 'chacha20'):
         for d in range(1, (5 if th else 4)):
             for seq in itertools.product(('encrypt', 'decrypt'), repeat=d):
@@ -470,7 +554,8 @@ BOUNDS = dict(depth="AEAD: every call sequence up to depth 3 (quick; GCM 4) / 4 
               ocb="OCB: every sequence up to depth 3 (thorough 4) over 9 methods incl. the final no-argument encrypt()/decrypt()",
               ccm_declared="CCM with assoc_len/msg_len declared: every sequence up to depth 3 (thorough 4) over 10..15 (method, length) pairs around the declared lengths",
               bad_tags="after a wrong tag: every single follow-up call (thorough: every pair)",
-              outside=["deeper histories (no abstraction-soundness argument is offered)", "SIV", "hash / XOF / MAC objects (their streaming behaviour is C09)",
+              hash_objects="17 hash / XOF / MAC classes: every update / output sequence up to depth 4 (thorough 5): update after the first output raises TypeError where documented, reads continue the one-shot stream, digests are idempotent",
+              outside=["deeper histories (no abstraction-soundness argument is offered)", "SIV", "copy() within the sequences (C19), KangarooTwelve",
                        "behaviour after a ValueError for too much / too little declared CCM data (the sequence stops there)"])
 ASSUMPTIONS = ["primitives uninterpreted as in C01", "verify()/decrypt_and_verify() are offered the specification tag for the data processed so far"]
 EXPLANATION = ("bounded model checking of call histories: every method sequence up to the depth bound is executed symbolically on the "
